@@ -54,6 +54,15 @@ def build_cases(tier):
                             ('(and (fp.isNaN in_0) (not (fp.isNaN in_1)))', [('a', ['2', '2', 'true']), ('b', ['2'])], 'normal'),
                             ('(and (not (fp.isNaN in_0)) (fp.isNaN in_1))', [('a', ['2', '0', 'false']), ('b', ['1'])], 'normal'),
                             ('(and (fp.isNaN in_0) (fp.isNaN in_1))', [('a', ['2', '0', 'false']), ('b', ['2'])], 'normal')]))
+    # complex keys: equal iff both parts are equal as floats; a NaN in either part makes the key unequal to every key, itself included
+    nan1, nan2 = '(or (fp.isNaN in_0) (fp.isNaN in_1))', '(or (fp.isNaN in_2) (fp.isNaN in_3))'
+    ceq = '(and (fp.eq in_0 in_2) (fp.eq in_1 in_3))'
+    C.append(T('key_complex128', '', probe('k1 := complex(NondetFloat64(0), NondetFloat64(1))', 'k2 := complex(NondetFloat64(2), NondetFloat64(3))', 'complex128').replace('println("a", len(m), m[k1], v2, ok2)', 'println("a", len(m), v2, ok2)').replace('_, ok3 := m[k2]\nprintln("b", len(m), ok3)', 'println("b", len(m))'),
+               lambda inp: [(ceq, [('a', ['1', '3', 'true']), ('b', ['0'])], 'normal'),
+                            ('(and (not %s) (not %s) (not %s))' % (ceq, nan1, nan2), [('a', ['2', '2', 'true']), ('b', ['1'])], 'normal'),
+                            ('(and %s (not %s))' % (nan1, nan2), [('a', ['2', '2', 'true']), ('b', ['2'])], 'normal'),
+                            ('(and (not %s) %s)' % (nan1, nan2), [('a', ['2', '0', 'false']), ('b', ['1'])], 'normal'),
+                            ('(and %s %s)' % (nan1, nan2), [('a', ['2', '0', 'false']), ('b', ['2'])], 'normal')]))
     # arrays and structs: element-wise, with separator/escape characters inside string components
     C.append(T('key_array_int', '', probe('k1 := [2]int16{NondetInt16(0), NondetInt16(1)}', 'k2 := [2]int16{NondetInt16(2), NondetInt16(3)}', '[2]int16'),
                lambda inp: probe_alts('(and (= in_0 in_2) (= in_1 in_3))')))
